@@ -2,7 +2,7 @@ CHECK = {
     "level": "exploration",
     "engine": "rtmp-refchunker",
     "technique": "lock-step runtime comparison of the library's chunk reader against an independent RTMP 1.0 reference chunker driven by bounded-exhaustive and random decision scripts, incl. three rule-breaking stream forms; two-model rule for the listed extended-timestamp deviation",
-    "level_text": "Held on the chunk streams observed: every decision script of 2 (quick) / 3 (thorough) message starts over the abstract alphabet (header type x chunk-stream class incl. all basic-header forms x timestamp/delta class x length class x chunk size x interleaving) plus thousands of random long traces (<=200 messages, <=40 chunk streams, <=4 in flight, Set Chunk Size in between, librtmp ping form, terminal rule breaks), produced by an independent specification chunker and read by the real ReadMessage under PRNG read segmentation. The 4x4 header-type transition matrix, basic-header forms, extended timestamps in type-3 chunks and all three fault modes are required to be observed. Not a proof.",
+    "level_text": "Held on the chunk streams observed: every decision script of 2 (quick) / 3 (thorough) message starts over the abstract alphabet (header type x chunk-stream class incl. all basic-header forms x timestamp/delta class x length class x chunk size x interleaving) plus thousands of random long traces (<=200 messages, <=40 chunk streams, <=4 in flight, Set Chunk Size in between, librtmp ping form, terminal rule breaks), produced by an independent specification chunker and read by the real ReadMessage under PRNG read segmentation, and a second time delivered message by message (the bytes up to the end of message k, then nothing until it has been returned: no read-ahead past a complete message). The 4x4 header-type transition matrix, basic-header forms, extended timestamps in type-3 chunks and all three fault modes are required to be observed. Not a proof.",
     "level_note": "Trusts the reference chunker/de-chunker (written from RTMP 1.0 section 5.3, DESIGN.md section 6; self-tested on every trace: its receiver must read what its sender wrote). No Abort messages. Payloads <= 70 KB.",
     "parts": [
         {"name": "exhaustive", "pkg": "rtmp", "run": "^TestVerif_C02_Exhaustive$", "timeout": {"quick": 900, "thorough": 7200}},
